@@ -22,7 +22,7 @@ CASES = {"quick": 64, "thorough": 900}
 BUDGET_S = {"quick": 30, "thorough": 780}
 MIN_EVALS = {"quick": 600, "thorough": 40000}
 FLOORS = {"quick": {"full_log": 15, "forward_vs_reverse": 15, "levels1": 30, "limit": 60, "range_levels0": 60, "range_levels1": 60,
-                    "single_revision": 30, "file_mainline_sets": 30},
+                    "single_revision": 30, "file_mainline_sets": 12},
           "thorough": {"full_log": 800, "forward_vs_reverse": 800, "levels1": 1600, "limit": 4000, "range_levels0": 4000,
                        "range_levels1": 4000, "single_revision": 2000, "file_mainline_sets": 3000}}
 EXHAUSTIVE = {"quick": False, "thorough": False}
